@@ -427,6 +427,135 @@ def run_stream3(ctx, binary, so):
     return n
 
 
+# ---- stream 4 (specification only): WHICH file is "the named library".  The operand of call_lib is handed to the system loader
+# as it is written: a name with a `/` is that path, relative to the working directory; a bare name is looked up along the
+# loader's search path (LD_LIBRARY_PATH, system directories), never in the working directory and never next to the bytecode file.
+# A DECOY (the second probe library under the first one's file name; it answers `lib2:...` and logs `2:...`) is put where a
+# well-meaning lookup would find it.  Named library present -> its function runs; absent -> the missing-library fault.
+DECOY_NAME = "libffiprobe.so"
+
+
+def decoy_scenarios():
+    """-> list of {name, lib (operand as written), decoys [dirs relative to the scratch top], real [dirs], ld (dir for LD_LIBRARY_PATH or None),
+    bytecode (dir of x.mmm relative to top), cwd, module (the call sits in an imported module of that dir) , expect: 'real' | 'nolib'}"""
+    S = []
+    add = lambda name, lib, expect, decoys=(), real=(), ld=None, bytecode="work", cwd="work", module=None, sym="echo": S.append(
+        {"name": name, "lib": lib, "expect": expect, "decoys": list(decoys), "real": list(real), "ld": ld, "bytecode": bytecode, "cwd": cwd, "module": module, "sym": sym})
+    bare = DECOY_NAME
+    # bare name
+    add("bare name, on the search path, nothing else", bare, "real", real=["ld"], ld="ld")
+    add("bare name, on no search path, nothing else", bare, "nolib")
+    add("bare name, on no search path, decoy in the working directory", bare, "nolib", decoys=["work"])
+    add("bare name, on the search path, decoy in the working directory", bare, "real", decoys=["work"], real=["ld"], ld="ld")
+    add("bare name, on no search path, decoy next to the bytecode file (executed from another directory)", bare, "nolib", decoys=["work/app"], bytecode="work/app")
+    add("bare name, on no search path, decoys in the working directory and next to the bytecode file", bare, "nolib", decoys=["work", "work/app"], bytecode="work/app")
+    add("bare name, on the search path, decoy next to the bytecode file", bare, "real", decoys=["work/app"], bytecode="work/app", real=["ld"], ld="ld")
+    add("bare name, on no search path, decoy in the parent of the working directory", bare, "nolib", decoys=["."])
+    add("bare name, on no search path, decoy in ./lib and ./plugins", bare, "nolib", decoys=["work/lib", "work/plugins"])
+    add("bare name, search path set but empty of it, decoy in the working directory", bare, "nolib", decoys=["work"], ld="ld")
+    add("bare name, in an imported module of a sub-directory, decoy next to the module", bare, "nolib", decoys=["work/mods"], module="mods")
+    # relative path with a directory part
+    rel = "plugins/" + DECOY_NAME
+    add("relative path, present", rel, "real", real=["work/plugins"])
+    add("relative path, missing everywhere", rel, "nolib")
+    add("relative path, missing, decoy under the same relative path next to the bytecode file", rel, "nolib", decoys=["work/app/plugins"], bytecode="work/app")
+    add("relative path, present, decoy under the same relative path next to the bytecode file", rel, "real", decoys=["work/app/plugins"], bytecode="work/app", real=["work/plugins"])
+    add("relative path, missing, decoy of that name directly in the working directory", rel, "nolib", decoys=["work"])
+    add("relative path, missing, decoy under the path from the parent directory", rel, "nolib", decoys=["plugins"])
+    add("relative path, missing, decoy under the path on the search path", rel, "nolib", decoys=["ld/plugins", "ld"], ld="ld")
+    add("relative path, missing, in an imported module of a sub-directory, decoy under the path next to the module", rel, "nolib", decoys=["work/mods/plugins"], module="mods")
+    add("relative path, present, in an imported module of a sub-directory, decoy under the path next to the module", rel, "real", decoys=["work/mods/plugins"], real=["work/plugins"], module="mods")
+    add("./name, missing, decoy next to the bytecode file", "./" + DECOY_NAME, "nolib", decoys=["work/app"], bytecode="work/app")
+    add("./name, present in the working directory, decoy next to the bytecode file", "./" + DECOY_NAME, "real", decoys=["work/app"], real=["work"], bytecode="work/app")
+    add("./name, missing, on the search path only", "./" + DECOY_NAME, "nolib", decoys=["ld"], ld="ld")
+    add("../path, missing, decoy one level further down", "../" + DECOY_NAME, "nolib", decoys=["work"], bytecode="work/app")
+    add("../path, present", "../" + DECOY_NAME, "real", real=["."], decoys=["work"])
+    # absolute path
+    add("absolute path, missing, decoys of that name in the working directory, next to the bytecode file and on the search path", "<TOP>/gone/" + DECOY_NAME, "nolib",
+        decoys=["work", "work/app", "ld"], ld="ld", bytecode="work/app")
+    add("absolute path, present, decoys around", "<TOP>/there/" + DECOY_NAME, "real", real=["there"], decoys=["work", "work/app"], bytecode="work/app")
+    # the named library lacks the symbol; a same-named file that has it lies around
+    add("symbol the named library lacks, a decoy that has it in the working directory", "plugins/" + DECOY_NAME, "nosym", real=["work/plugins"], decoys=["work"], sym="only2")
+    add("symbol the named library lacks (bare name on the search path), a decoy that has it in the working directory", bare, "nosym", real=["ld"], ld="ld", decoys=["work"], sym="only2")
+    return S
+
+
+def run_decoys(ctx, binary, so, so2):
+    base = ctx.mktemp()
+    args = [("int", 7), ("str", "seven")]
+    rendered = render(args)
+    scen = decoy_scenarios()
+
+    def one(s):
+        top = tempfile.mkdtemp(prefix="d-", dir=base)
+        for d in ["work", "ld", s["bytecode"]] + ([os.path.join("work", s["module"])] if s["module"] else []):
+            os.makedirs(os.path.join(top, d), exist_ok=True)
+        for dirs, src in ((s["decoys"], so2), (s["real"], so)):
+            for d in dirs:
+                os.makedirs(os.path.join(top, d), exist_ok=True)
+                shutil.copy(src, os.path.join(top, d, DECOY_NAME))
+        lib = s["lib"].replace("<TOP>", top)
+        call = ('\tmake_str "before"\n\tprintn "*"\n\tvoid\n%s\n%s\n\tcall_lib %s %s\n\tprintn "*"\n\tvoid\n\tmake_str "after"\n\tprintn "*"\n\tvoid\n'
+                % (push_text(args[0]), push_text(args[1]), quote(lib), quote(s["sym"])))
+        bdir = os.path.join(top, s["bytecode"])
+        texts = {}
+        if s["module"]:
+            texts[os.path.join(top, "work", s["module"], "helper")] = "function __module__\n" + call + "\tret_mod\nend\n"
+            texts[os.path.join(bdir, "x")] = ('function __module__\n\tmake_str "main"\n\tprintn "*"\n\tvoid\n\tmodule_entry "%s/helper.mmm#__module__"\n\tstore "helper"\n'
+                                              '\tmake_str "main after"\n\tprintn "*"\n\tvoid\n\tret_mod\nend\n' % s["module"])
+        else:
+            texts[os.path.join(bdir, "x")] = "function __module__\n" + call + "\tret_mod\nend\n"
+        t = (0, "", "")
+        for stem, text in texts.items():
+            with open(stem + ".transpiled.mmm", "w", encoding="utf8") as f:
+                f.write(text)
+            t1 = programs.run_bin(binary, ["transpile", os.path.basename(stem) + ".transpiled.mmm"], os.path.dirname(stem))
+            if t1[0] != 0:
+                t = t1
+        cwd = os.path.join(top, s["cwd"])
+        env = {"MSCRIPT_VERIF_TYPED_PRINT": "1", "FFIPROBE_LOG": os.path.join(top, "log"), "LD_LIBRARY_PATH": os.path.join(top, s["ld"]) if s["ld"] else ""}
+        r = programs.run_bin(binary, ["execute", os.path.relpath(os.path.join(bdir, "x.mmm"), cwd)], cwd, env) if t[0] == 0 else None
+        log = open(os.path.join(top, "log"), encoding="utf8", errors="replace").read() if os.path.exists(os.path.join(top, "log")) else ""
+        tree = sorted(os.path.relpath(os.path.join(r_, f), top) for r_, _, fs in os.walk(top) for f in fs if f.endswith((".so", ".mmm")) and ".transpiled" not in f)
+        shutil.rmtree(top, ignore_errors=True)
+        unloc = lambda x: x.replace(top, "<TOP>")
+        return t, (None if r is None else (r[0], unloc(r[1]), unloc(r[2]))), log, tree, {stem.replace(top, "<TOP>"): unloc(tx) for stem, tx in texts.items()}
+
+    n = 0
+    for s, (t, r, log, tree, texts) in zip(scen, programs.pmap(one, scen)):
+        replay = {"scenario": s, "bytecode_text": texts, "files_in_place": tree, "the_decoy": "a copy of harness/ffiprobe2's library under the name " + DECOY_NAME + " (logs `2:<fn>`, echo answers `lib2:...`)",
+                  "how": "build the tree under a scratch directory <TOP>; mscript transpile each *.transpiled.mmm in its directory; cd <TOP>/%s; LD_LIBRARY_PATH=%s MSCRIPT_VERIF_TYPED_PRINT=1 FFIPROBE_LOG=<TOP>/log mscript execute %s"
+                         % (s["cwd"], "<TOP>/" + s["ld"] if s["ld"] else "(empty)", os.path.relpath(os.path.join(s["bytecode"], "x.mmm"), s["cwd"]))}
+        if r is None:
+            ctx.report("ffi-program-not-transpiled", "hand-written bytecode was rejected by transpile: %s" % (t[1] + t[2])[-300:], dict(replay, transpile=t))
+            continue
+        n += 1
+        rc, out, err = r
+        replay.update({"rc": rc, "stdout": out[-800:], "stderr": err[-800:], "probe_log": log[-400:]})
+        head = "<Str>main\n<Str>before\n" if s["module"] else "<Str>before\n"
+        if s["expect"] == "real":
+            want_out = head + "<Str>" + rendered + "\n<Str>after\n" + ("<Str>main after\n" if s["module"] else "")
+            if log != "echo " + rendered + "\n":
+                ctx.report("ffi-wrong-function-called", "%s: the function entered is not the named function of the NAMED library `%s`: the probe log reads %r (a leading `2:` is the decoy), expected %r"
+                           % (s["name"], s["lib"], log[-200:], "echo " + rendered + "\n"), replay)
+            elif rc != 0 or out != want_out:
+                ctx.report("ffi-result-not-delivered", "%s: exit %s, stdout %r, expected %r" % (s["name"], rc, out[-200:], want_out), replay)
+            continue
+        want = "Could not open FFI Library (%s)" % s["lib"] if s["expect"] == "nolib" else "Could not find symbol (%s)" % s["sym"]
+        what = "the library `%s` is missing" % s["lib"] if s["expect"] == "nolib" else "the library `%s` has no symbol `%s`" % (s["lib"], s["sym"])
+        if log:
+            ctx.report("ffi-wrong-function-called", "%s: %s, yet a foreign function was entered (%r: the decoy logs `2:`): a file the program did not name was loaded" % (s["name"], what, log[-120:]), replay)
+        elif rc == 0:
+            ctx.report("ffi-error-not-raised", "%s: %s, yet the program finished normally" % (s["name"], what), replay)
+        elif out != head:
+            ctx.report("ffi-later-instruction-ran", "%s: %s: stdout %r, expected exactly %r (nothing after the failing call)" % (s["name"], what, out[-200:], head), replay)
+        elif want not in err:
+            ctx.report("ffi-error-message-lost", "%s: the run-time error does not carry %r: %r" % (s["name"], want, err[-300:]), replay)
+    ctx.cov["decoy_library_scenarios"] = {"scenarios": n, "rule": "the named library present / missing x the operand written as bare name, dir/name, ./name, ../name, absolute path x a same-named decoy in the working "
+                                          "directory, next to the bytecode file, next to an imported module, in the parent directory, under LD_LIBRARY_PATH; missing symbol with a decoy that has it"}
+    return n
+
+
 def run(ctx):
     ok = core.coq_props(ctx, "Props/C19.v")
     binary = core.build_repo()
@@ -554,6 +683,7 @@ def run(ctx):
             ctx.sample({"bytecode_text": text, "rc": rc, "stdout": out[:600], "probe_log": log[:600], "stderr_tail": err[-300:], "model_status": pred["status"]})
 
     n3 = run_stream3(ctx, binary, so)
+    n3 += run_decoys(ctx, binary, so, so2)
     spec_fail += sum(1 for v in ctx.viol if v[0].startswith("ffi-"))
     ctx.cov["evaluations"] = len(cases) + n3
     ctx.cov["distinct_nontrivial"] = nontrivial
